@@ -3,6 +3,7 @@ import Summer.Model.Build
 import Summer.Model.Run
 import Summer.Model.Solvers
 import Summer.Model.Derived
+import Summer.Model.Pipeline
 import Summer.Model.TimeFns
 import Summer.Model.Query
 import Summer.Model.Params
@@ -288,12 +289,11 @@ def optE {β} (o : Option β) (msg : String) : Except String β :=
   | some v => .ok v
   | none => .error msg
 
-def modelTimes (m : Model α) : List α := linspace m.t0 m.t1 m.nTimes
+def modelTimes (m : Model α) : List α := Pipeline.modelTimes m
 
 def rebalTolDen : Nat := 10000000
 
-def fieldFn (m : Model α) (b : Backend) (params : List (String × α)) : List α → α → List α :=
-  fun x t => (rhs m b params x t).getD (List.replicate m.comps.length 0)
+def fieldFn (m : Model α) (b : Backend) (params : List (String × α)) : List α → α → List α := Pipeline.fieldFn m b params
 
 def jflowOp (io : NumIO α) (j : Json) : P (FlowOp α) := do
   let kind ← jstr (← jfield j "kind")
@@ -374,25 +374,20 @@ def needModel (st : DState α) : Except String (Model α) := optE st.model "no m
 def runModel (io : NumIO α) (m : Model α) (params : List (String × α)) (solver : String)
     (rtol atol : Rat) (fuel : Nat) : Except String (List (List α) × List (String × List α)) := do
   let b ← liftRes (prepare m)
-  let x0 ← optE (initialPopulation m params) "initial population: missing parameter or distribution"
-  let times := modelTimes m
-  let _ ← optE (step m b params (times.getD 0 0) x0) "rate evaluation failed (missing parameter?)"
-  let f := fieldFn m b params
-  let outputs ← (match solver with
-    | "euler" => pure (euler f x0 times)
-    | "rk4" => pure (rk4 f x0 times)
+  let solve ← (match solver with
+    | "euler" => pure (fun f x0 times => euler f x0 times)
+    | "rk4" => pure (fun f x0 times => rk4 f x0 times)
     | "odeint" =>
         let tb : Tableau α := { alpha := Generated.Tableau.alpha.map io.ofRat, beta := Generated.Tableau.beta.map (·.map io.ofRat),
                                 cSol := Generated.Tableau.cSol.map io.ofRat, cError := Generated.Tableau.cError.map io.ofRat,
                                 cMid := Generated.Tableau.cMid.map io.ofRat, fitRows := Generated.Tableau.fitRows.map (·.map io.ofRat) }
-        let t0 := times.getD 0 0
-        let dt0 := io.initialStep f t0 x0 (f x0 t0) rtol atol
-        pure (odeint tb (io.control rtol atol) f fuel dt0 x0 times)
-    | s => throw s!"unknown solver {s}" : Except String (List (List α)))
-  let (flows, cvs) ← optE (flowsForOutputs m b params times outputs) "flows for outputs failed"
-  let d : RunData α := { times := times, outputs := outputs, flows := flows, computed := cvs, params := params }
-  let dout ← optE (derivedOutputs m d) "derived outputs failed"
-  pure (outputs, dout)
+        pure (fun f x0 times =>
+          let t0 := times.getD 0 0
+          let dt0 := io.initialStep f t0 x0 (f x0 t0) rtol atol
+          odeint tb (io.control rtol atol) f fuel dt0 x0 times)
+    | s => throw s!"unknown solver {s}" : Except String ((List α → α → List α) → List α → List α → List (List α)))
+  -- the whole run is `Pipeline.runModel` (the rendering of `run_model` is proved equal to it in `Props/C07Pipeline.lean`)
+  optE (Pipeline.runModel m b solve [] params) "run failed: initial population, a missing parameter, or the derived outputs"
 
 def handle (io : NumIO α) (st : DState α) (j : Json) : Except String (DState α × Json) := do
   let op ← jstr (← jfield j "op")
